@@ -46,11 +46,11 @@ THEOREMS["C16"] = [("Flurry.Props.C16", [
 THEOREMS["C17"] = [("Flurry.Props.C17", [
     "Flurry.C17.inserting_needs_send_sync", "Flurry.C17.lookup_unbounded", "Flurry.C17.binentry_conditional"])]
 
-THEOREMS["C01"] = [("Flurry.Props.C10", ["Flurry.C10.fill_then_forward_then_retire"]), ("Flurry.Props.C13", ["Flurry.C13.wrappers_delegate_by_name"]), ("Flurry.Props.C01Bin", ["Flurry.Proto.Bin.bin_linearizable", "Flurry.Proto.Bin.bin_linearizable_quiescent", "Flurry.Proto.Bin.bin_linearizable_writers", "Flurry.Proto.Bin.writers_mutex", "Flurry.Proto.Bin.writerStore_spec", "Flurry.Proto.Bin.reachable_inv"]), ("Flurry.Props.C01BinW", ["Flurry.Proto.BinW.binw_linearizable", "Flurry.Proto.BinW.binw_linearizable_quiescent", "Flurry.Proto.BinW.storeAt_eq_writerStore_reachable", "Flurry.Proto.BinW.walkers_mutex", "Flurry.Proto.BinW.binw_simulated"]), ("Flurry.Props.C01BinT", ["Flurry.Proto.BinT.bint_not_linearizable", "Flurry.Proto.BinT.not_bint_linearizable_quiescent"]), ("Flurry.Lemmas.BinWExamples", ["Flurry.Proto.BinW.noCheck_not_linearizable_doubleRemove", "Flurry.Proto.BinW.noCheck_not_linearizable_lostInsert", "Flurry.Proto.BinW.noCheck_refutes"]), ("Flurry.Props.C01", [
+THEOREMS["C01"] = [("Flurry.Props.C10", ["Flurry.C10.fill_then_forward_then_retire"]), ("Flurry.Props.C13", ["Flurry.C13.wrappers_delegate_by_name"]), ("Flurry.Props.C01Bin", ["Flurry.Proto.Bin.bin_linearizable", "Flurry.Proto.Bin.bin_linearizable_quiescent", "Flurry.Proto.Bin.bin_linearizable_writers", "Flurry.Proto.Bin.writers_mutex", "Flurry.Proto.Bin.writerStore_spec", "Flurry.Proto.Bin.reachable_inv"]), ("Flurry.Props.C01BinW", ["Flurry.Proto.BinW.binw_linearizable", "Flurry.Proto.BinW.binw_linearizable_quiescent", "Flurry.Proto.BinW.storeAt_eq_writerStore_reachable", "Flurry.Proto.BinW.walkers_mutex", "Flurry.Proto.BinW.binw_simulated"]), ("Flurry.Props.C01BinT", ["Flurry.Proto.BinT.bint_linearizable_quiescent", "Flurry.Proto.BinT.bint_linearizable", "Flurry.Proto.BinT.bint_linearizable_writers", "Flurry.Proto.BinT.bint_inv", "Flurry.Proto.BinT.bint_not_linearizable", "Flurry.Proto.BinT.not_bint_linearizable_quiescent"]), ("Flurry.Lemmas.BinWExamples", ["Flurry.Proto.BinW.noCheck_not_linearizable_doubleRemove", "Flurry.Proto.BinW.noCheck_not_linearizable_lostInsert", "Flurry.Proto.BinW.noCheck_refutes"]), ("Flurry.Props.C01", [
     "Flurry.C01.certificate_sound", "Flurry.C01.decision_correct", "Flurry.C01.not_linearizable_iff",
     "Flurry.C01.linearization_points", "Flurry.C01.no_resurrection", "Flurry.C01.reads_pure",
     "Flurry.C01.insert_then_read", "Flurry.C01.remove_then_read", "Flurry.C01.final_read"])]
-THEOREMS["C08"] = [("Flurry.Props.C13", ["Flurry.C13.wrappers_delegate_by_name"]), ("Flurry.Props.C01Bin", ["Flurry.Proto.Bin.bin_linearizable", "Flurry.Proto.Bin.bin_linearizable_quiescent", "Flurry.Proto.Bin.writers_mutex"]), ("Flurry.Props.C01BinW", ["Flurry.Proto.BinW.binw_linearizable_quiescent", "Flurry.Proto.BinW.storeAt_eq_writerStore_reachable"]), ("Flurry.Props.C08", [
+THEOREMS["C08"] = [("Flurry.Props.C13", ["Flurry.C13.wrappers_delegate_by_name"]), ("Flurry.Props.C01Bin", ["Flurry.Proto.Bin.bin_linearizable", "Flurry.Proto.Bin.bin_linearizable_quiescent", "Flurry.Proto.Bin.writers_mutex"]), ("Flurry.Props.C01BinW", ["Flurry.Proto.BinW.binw_linearizable_quiescent", "Flurry.Proto.BinW.storeAt_eq_writerStore_reachable"]), ("Flurry.Props.C01BinT", ["Flurry.Proto.BinT.bint_linearizable_quiescent"]), ("Flurry.Props.C08", [
     "Flurry.C08.counter_no_lost_update", "Flurry.C08.absent_not_applied", "Flurry.C08.replaces_what_it_read",
     "Flurry.C08.removal_is_atomic"])]
 
@@ -764,8 +764,8 @@ def check_C17(R):
 PARTIAL_CONC = ("PARTIAL: proved for every interleaving of any number of threads: one LIST bin without resize (Proto/Bin, Proto/BinW: "
                 "lock inside the first node, re-check of the bin cell, step-by-step writer walk, lock-free CAS into an empty bin, lock-free "
                 "readers justified in hindsight; the re-check is shown load-bearing), tied to the code by the lock-discipline check on every "
-                "recorded event stream and to the sequential model by writerStore_refines_seq. Tree bins (Proto/BinT) and a bin under resize "
-                "(Proto/BinX) are modelled; their linearizability theorems are in progress (BinT's original removal order is REFUTED: finding F8). "
+                "recorded event stream and to the sequential model by writerStore_refines_seq. Also proved: one TREE bin without resize "
+                "(Proto/BinT: list + tree set + read-write lock, per-element mode decision of readers) in the REPAIRED removal order — the original order is refuted by a kernel-checked schedule, finding F8. A bin under resize (Proto/BinX) is modelled; its theorem is in progress. "
                 "Beyond these fragments the theorems cover the specification and the sound AND complete decision procedure applied to recorded "
                 "histories; that every interleaving of the whole implementation produces a linearizable history is explored by the deterministic "
                 "scheduler, the regression scenarios and the stress search on the real code (testing), not proved")
